@@ -6,6 +6,7 @@ import (
 	"encoding/json"
 	"flag"
 	"fmt"
+	"go/token"
 	"os"
 	"path/filepath"
 	"runtime/debug"
@@ -170,7 +171,18 @@ func run(p *propDef, tier, repo, verif string, seed int, explainKey string, noEv
 				defer func() {
 					if rec := recover(); rec != nil {
 						if ce, ok := rec.(checkerError); ok {
-							ruleErrors = append(ruleErrors, ce.msg)
+							// the construct a rule reads has changed so that the rule cannot be decided: reported as a
+							// failed obligation (VIOLATION line, exit 1), never passed over; the text says it is undecided
+							key := ce.msg
+							if i := strings.IndexAny(key, ":("); i > 0 {
+								key = key[:i]
+							}
+							key = strings.Join(strings.Fields(key), "-")
+							if len(key) > 60 {
+								key = key[:60]
+							}
+							cc.fail(p.id+".undecided", p.id+".undecided:"+key, token.NoPos, "", "UNDECIDED: "+ce.msg,
+								"a rule of this property found its anchor but not in a shape it can decide; the change is reported rather than passed over (exit 1), and the text above says what the rule expected")
 							return
 						}
 						panic(rec)
